@@ -88,6 +88,9 @@ pub struct RunState {
     pub ftp_log: Vec<(u64, bool)>,
     pub do_flush: bool,
     pub rec_alias: bool,
+    /// one mapper object lives for the whole run (the way a kernel keeps its mapper) instead of a
+    /// fresh one per call
+    pub persist: bool,
 }
 
 static mut RUN: *mut RunState = core::ptr::null_mut();
@@ -396,6 +399,60 @@ fn p4_ptr(view: &View, root: u64) -> *mut PageTable {
     }
 }
 
+/// The run's long-lived mapper object (`RunState::persist`).
+pub enum Persist {
+    Offset(OffsetPageTable<'static>),
+    Mapped(MappedPageTable<'static, SimMapping>),
+    Rec(RecursivePageTable<'static>),
+}
+static mut PERSIST: Option<Persist> = None;
+
+pub fn persist_reset() {
+    unsafe { *(&raw mut PERSIST) = None }
+}
+
+/// Build the mapper of the run's view.  Err: the recursive constructor refused the table.
+fn build(view: &View, root: u64, alias: bool) -> Result<Persist, String> {
+    Ok(match view {
+        View::Offset { phys_offset } => Persist::Offset(unsafe { OffsetPageTable::new(&mut *p4_ptr(view, root), VirtAddr::new(*phys_offset)) }),
+        View::Mapped => Persist::Mapped(unsafe { MappedPageTable::new(&mut *p4_ptr(view, root), SimMapping) }),
+        View::Recursive { r: ri } if alias => {
+            // the documented contract of new_unchecked: an active level-4 table and its recursive
+            // index; the reference itself is the harness's own mapping of the table
+            let table = unsafe { &mut *(world().mem.commit(root) as *mut PageTable) };
+            Persist::Rec(unsafe { RecursivePageTable::new_unchecked(table, x86_64::structures::paging::PageTableIndex::new(*ri)) })
+        }
+        View::Recursive { .. } => {
+            let table = unsafe { &mut *p4_ptr(view, root) };
+            match RecursivePageTable::new(table) {
+                Ok(m) => Persist::Rec(m),
+                Err(e) => return Err(format!("RecursivePageTable::new failed: {e:?}")),
+            }
+        }
+    })
+}
+
+fn with_mapper<T>(persist: bool, view: &View, root: u64, alias: bool, f: impl FnOnce(&mut Persist) -> T) -> Result<T, String> {
+    if persist {
+        let slot = unsafe { &mut *(&raw mut PERSIST) };
+        if slot.is_none() {
+            *slot = Some(build(view, root, alias)?);
+        }
+        Ok(f(slot.as_mut().unwrap()))
+    } else {
+        let mut m = build(view, root, alias)?;
+        Ok(f(&mut m))
+    }
+}
+
+fn dispatch_on(p: &mut Persist, step: &Step, do_flush: bool) -> Outcome {
+    match p {
+        Persist::Offset(m) => dispatch(m, step, do_flush),
+        Persist::Mapped(m) => dispatch(m, step, do_flush),
+        Persist::Rec(m) => dispatch(m, step, do_flush),
+    }
+}
+
 /// Execute one step against the real mapper of the run's view.  `Err` = the crate panicked.
 pub fn call(step: &Step) -> Outcome {
     let r = run();
@@ -403,33 +460,14 @@ pub fn call(step: &Step) -> Outcome {
     let root = r.model.root;
     let do_flush = r.do_flush;
     let alias = r.rec_alias;
+    let persist = r.persist;
     let label = step.opname();
-    let res = sut_call(label, || match &view {
-        View::Offset { phys_offset } => {
-            let mut m = unsafe { OffsetPageTable::new(&mut *p4_ptr(&view, root), VirtAddr::new(*phys_offset)) };
-            dispatch(&mut m, step, do_flush)
-        }
-        View::Mapped => {
-            let mut m = unsafe { MappedPageTable::new(&mut *p4_ptr(&view, root), SimMapping) };
-            dispatch(&mut m, step, do_flush)
-        }
-        View::Recursive { r: ri } if alias => {
-            // the documented contract of new_unchecked: an active level-4 table and its recursive
-            // index; the reference itself is the harness's own mapping of the table
-            let table = unsafe { &mut *(world().mem.commit(root) as *mut PageTable) };
-            let mut m = unsafe { RecursivePageTable::new_unchecked(table, x86_64::structures::paging::PageTableIndex::new(*ri)) };
-            dispatch(&mut m, step, do_flush)
-        }
-        View::Recursive { .. } => {
-            let table = unsafe { &mut *p4_ptr(&view, root) };
-            match RecursivePageTable::new(table) {
-                Ok(mut m) => dispatch(&mut m, step, do_flush),
-                Err(e) => {
-                    let mut o = Outcome::new(Code::Panic);
-                    o.panic = Some(format!("RecursivePageTable::new failed: {e:?}"));
-                    o
-                }
-            }
+    let res = sut_call(label, || match with_mapper(persist, &view, root, alias, |m| dispatch_on(m, step, do_flush)) {
+        Ok(o) => o,
+        Err(e) => {
+            let mut o = Outcome::new(Code::Panic);
+            o.panic = Some(e);
+            o
         }
     });
     match res {
@@ -448,26 +486,9 @@ pub fn call_many(steps: &[Step]) -> Result<Vec<Outcome>, String> {
     let view = r.view.clone();
     let root = r.model.root;
     let alias = r.rec_alias;
-    sut_call("probe-set", || match &view {
-        View::Offset { phys_offset } => {
-            let mut m = unsafe { OffsetPageTable::new(&mut *p4_ptr(&view, root), VirtAddr::new(*phys_offset)) };
-            steps.iter().map(|s| dispatch(&mut m, s, false)).collect()
-        }
-        View::Mapped => {
-            let mut m = unsafe { MappedPageTable::new(&mut *p4_ptr(&view, root), SimMapping) };
-            steps.iter().map(|s| dispatch(&mut m, s, false)).collect()
-        }
-        View::Recursive { r: ri } if alias => {
-            let table = unsafe { &mut *(world().mem.commit(root) as *mut PageTable) };
-            let mut m = unsafe { RecursivePageTable::new_unchecked(table, x86_64::structures::paging::PageTableIndex::new(*ri)) };
-            steps.iter().map(|s| dispatch(&mut m, s, false)).collect()
-        }
-        View::Recursive { .. } => {
-            let table = unsafe { &mut *p4_ptr(&view, root) };
-            match RecursivePageTable::new(table) {
-                Ok(mut m) => steps.iter().map(|s| dispatch(&mut m, s, false)).collect(),
-                Err(e) => panic!("RecursivePageTable::new failed: {e:?}"),
-            }
-        }
+    let persist = r.persist;
+    sut_call("probe-set", || match with_mapper(persist, &view, root, alias, |m| steps.iter().map(|s| dispatch_on(m, s, false)).collect::<Vec<_>>()) {
+        Ok(v) => v,
+        Err(e) => panic!("{e}"),
     })
 }
